@@ -3,6 +3,18 @@
 (* The catalogue of concrete segments from which MC_C09 / MC_C09H build    *)
 (* every source of up to MaxSegs segments.  Each atom is one segment of    *)
 (* Lexer.tla; the comment shows its text.                                  *)
+(*                                                                         *)
+(* Atoms 26.. are the NEAR MISSES of the verbatim state machine: block     *)
+(* tags whose name has "verbatim" / "endverbatim" as a proper prefix or    *)
+(* suffix, "verbatim" followed by something that is not a space (tab,      *)
+(* newline, a quote), with and without quoted arguments; an end tag where  *)
+(* no block is open; end tags that are not EXACTLY "end" + the contents of *)
+(* the opening tag inside a block.  Which of them open / close a verbatim  *)
+(* block is decided by OpensVerbatim / the verbatim segment of Lexer.tla   *)
+(* (Django: contents[:9] in ("verbatim", "verbatim ") opens, exactly       *)
+(* "end" + those contents closes), never by the atom list: SegOK admits a  *)
+(* plain block tag only if it does NOT open a block, BodySegOK a body tag  *)
+(* only if it does NOT close it (GeneratorWellFormed is checked by TLC).   *)
 (***************************************************************************)
 EXTENDS Lexer
 
@@ -32,6 +44,21 @@ VbOpenN == Tag(PC, S1, <<Plain(VERBATIM), Ws(S1), Plain(<<cn>>)>>, S1)    \* {% 
 VbCloseN == Tag(PC, S1, <<Plain(ENDW \o VERBATIM), Ws(S1), Plain(<<cn>>)>>, S1)
 VbOpenQ == Tag(PC, S1, <<Plain(VERBATIM), Ws(S1), Str(DQ, <<cq>>)>>, S1)  \* {% verbatim "q" %}
 VbCloseQ == Tag(PC, S1, <<Plain(ENDW \o VERBATIM), Ws(S1), Str(DQ, <<cq>>)>>, S1)
+
+\* near misses of the verbatim state machine
+USC == 95  cj == 106  S2 == <<SP, SP>>
+ENDVB == ENDW \o VERBATIM
+NmJsQ == Tag(PC, S1, <<Plain(VERBATIM \o <<USC, cj, cs>>), Ws(S1), Str(DQ, <<cq>>)>>, S1)   \* {% verbatim_js "q" %}
+NmX == Tag(PC, S1, <<Plain(VERBATIM \o <<cx>>)>>, S1)                                       \* {% verbatimx %}
+NmTabQ == Tag(PC, S1, <<Plain(VERBATIM), Ws(<<TAB>>), Str(DQ, <<cq>>)>>, S1)                 \* {% verbatim\t"q" %}
+NmNlN == Tag(PC, S1, <<Plain(VERBATIM), Ws(<<NL>>), Plain(<<cn>>)>>, S1)                     \* {% verbatim\nn %}
+NmGlueQ == Tag(PC, S1, <<Plain(VERBATIM), Str(SQ, <<cq>>)>>, S1)                             \* {% verbatim'q' %}
+NmPreQ == Tag(PC, S1, <<Plain(<<cx>> \o VERBATIM), Ws(S1), Str(DQ, <<cq>>)>>, S1)           \* {% xverbatim "q" %}
+NmEndXQ == Tag(PC, S1, <<Plain(ENDVB \o <<cx>>), Ws(S1), Str(DQ, <<cq>>)>>, S1)             \* {% endverbatimx "q" %}
+NmEndX == Tag(PC, S1, <<Plain(ENDVB \o <<cx>>)>>, S1)                                       \* {% endverbatimx %}
+NmEndQQ == Tag(PC, S1, <<Plain(ENDVB), Ws(S1), Str(DQ, <<cq, cq>>)>>, S1)                    \* {% endverbatim "qq" %}
+VbOpen2Q == Tag(PC, S1, <<Plain(VERBATIM), Ws(S2), Str(DQ, <<cq>>)>>, S1)                    \* {% verbatim  "q" %}
+VbClose2Q == Tag(PC, S1, <<Plain(ENDVB), Ws(S2), Str(DQ, <<cq>>)>>, S1)                      \* {% endverbatim  "q" %}
 
 Atoms == <<
   Txt(<<ca, cb>>),                                                                    \*  1  ab
@@ -64,7 +91,20 @@ Atoms == <<
   TailSeg(PC, <<Ws(S1), Plain(<<cx>>), Ws(S1), OpenQ(DQ, <<cs, NL, ct>>)>>),          \* 22  {% x "s\nt    (tail)
   TailSeg(PC, <<Ws(S1), Plain(<<cx>>), Ws(S1), Str(DQ, <<PC, RB>>), Ws(S1)>>),        \* 23  {% x "%}"_    (tail, zone)
   VerbOpen(VbOpen, <<VarV, BlkCS>>),                                                  \* 24  {% verbatim %}{{ v }}{% c "s" %}  (tail)
-  Tag(PC, S1, <<Plain(<<cx>>), Ws(S1), OpenQ(DQ, <<ca, cb, cc>>)>>, S1)               \* 25  {% x "abc %}  (zone)
+  Tag(PC, S1, <<Plain(<<cx>>), Ws(S1), OpenQ(DQ, <<ca, cb, cc>>)>>, S1),              \* 25  {% x "abc %}  (zone)
+  NmJsQ,                                                                              \* 26  {% verbatim_js "q" %}
+  NmX,                                                                                \* 27  {% verbatimx %}
+  NmTabQ,                                                                             \* 28  {% verbatim\t"q" %}
+  NmNlN,                                                                              \* 29  {% verbatim\nn %}
+  NmGlueQ,                                                                            \* 30  {% verbatim'q' %}
+  NmPreQ,                                                                             \* 31  {% xverbatim "q" %}
+  VbCloseQ,                                                                           \* 32  {% endverbatim "q" %}   (no block open)
+  Verb(VbOpenQ, <<NmEndXQ, NmEndQQ, VbClose2Q, VbClose, NmJsQ, VarV>>, VbCloseQ),
+     \* 33  {% verbatim "q" %}{% endverbatimx "q" %}{% endverbatim "qq" %}{% endverbatim  "q" %}{% endverbatim %}{% verbatim_js "q" %}{{ v }}{% endverbatim "q" %}
+  Verb(VbOpen, <<VbCloseQ, NmEndX, NmJsQ, VarV>>, VbClose),
+     \* 34  {% verbatim %}{% endverbatim "q" %}{% endverbatimx %}{% verbatim_js "q" %}{{ v }}{% endverbatim %}
+  Verb(VbOpen2Q, <<VbCloseQ, VarV>>, VbClose2Q)
+     \* 35  {% verbatim  "q" %}{% endverbatim "q" %}{{ v }}{% endverbatim  "q" %}
 >>
 
 NAtoms == Len(Atoms)
